@@ -68,7 +68,17 @@ ApplyLike ==
          r2 == IF in.new[2] = <<>> THEN r1 ELSE InterpAxis(r1, 2, in.new[2])
      IN out' = r2
   /\ (Emit => PrintT(ToJson([op |-> "interp_like", in |-> in, out |-> out'])))
-Next == Choose \/ Apply \/ ChooseLike \/ ApplyLike
+\* Dataset variants: variables a(x,y), b(y,x) and c(y) (lacking x); interp_axis / interp_like along x with in-range points.
+\* Every variable that has x equals the DimArray interpolation (InterpAxis), c is unchanged, metadata is carried.
+ChooseDs ==
+  /\ ph = 0 /\ ph' = 5 /\ out' = out
+  /\ \E new \in {<<4, 6>>, <<6, 8, 5>>, <<8>>} : \E like \in BOOLEAN : \E bypos \in BOOLEAN :
+       in' = [NoIn EXCEPT !.a = LikeA, !.new = new, !.d = 1, !.fills = like, !.issorted = bypos]
+ApplyDs ==
+  /\ ph = 5 /\ ph' = 6 /\ in' = in
+  /\ out' = InterpAxis(in.a, 1, in.new)
+  /\ (Emit => PrintT(ToJson([op |-> "interp_ds", in |-> in, out |-> out'])))
+Next == Choose \/ Apply \/ ChooseLike \/ ApplyLike \/ ChooseDs \/ ApplyDs
 Spec == Init /\ [][Next]_vars
 
 (* ---------- theorems ---------- *)
